@@ -358,11 +358,14 @@ def gen_case(rng):
             opts += ["--build-id"]
         if kind in ("static", "dynamic-nopie") and rng.random() < 0.15:
             which = rng.choice([".data", ".text", ".bss", ".rodata"])
-            opts += [f"--section-start={which}={rng.choice([0x800000, 0x1000000, 0x900010, 0x2000000]):#x}"]
+            # forwards of the default image base and, for a third of them, backwards (the location counter moves down)
+            opts += [f"--section-start={which}={rng.choice([0x800000, 0x1000000, 0x900010, 0x2000000, 0x100000, 0x200000]):#x}"]
             located = True
     script = None
     if kind in ("static", "shared") and not located and rng.random() < 0.15:
         script = SCRIPT % rng.choice(["0x400000 + SIZEOF_HEADERS", "0x10000", "0x800000"])
+        if rng.random() < 0.3:
+            script = script.replace(". = ALIGN(0x1000);", ". = 0x200000;" if "0x10000;" not in script else ". = 0x4000;")      # .data placed below .text
         located = True
         if rng.random() < 0.5 and "--no-gc-sections" not in opts:
             opts = [o for o in opts if o != "--gc-sections"] + ["--no-gc-sections"]
